@@ -87,6 +87,10 @@ CRAFTED = [
     ("tsql", "INSERT INTO [rpt].[out] SELECT [dbo].[orders].[amount], o2.[id] FROM [dbo].[orders] JOIN [dbo].[o2] AS o2 ON [dbo].[orders].[id] = o2.[id]"),
     ("mysql", "INSERT INTO rpt.out SELECT `sales`.`orders`.`amount` FROM `sales`.`orders`"),
     ("ansi", 'CREATE TABLE stage AS SELECT "db"."sales"."orders"."amount" AS a FROM "db"."sales"."orders"; INSERT INTO rpt.out SELECT stage.a FROM stage'),
+    # a three-part table name whose columns are referenced with a partial (two-part) qualifier
+    ("ansi", "INSERT INTO rpt.out SELECT sales.orders.amount, sales.orders.id FROM prod.sales.orders"),
+    ("ansi", "UPDATE rpt.out SET amount = sales.orders.amount FROM prod.sales.orders WHERE sales.orders.id = rpt.out.id"),
+    ("ansi", "CREATE TABLE prod.stage.t AS SELECT sales.orders.amount AS a FROM prod.sales.orders; INSERT INTO rpt.out SELECT stage.t.a FROM prod.stage.t"),
     # a table that only has column lineage (written by a statement that reads no table) and is dropped later
     ("ansi", "UPDATE t SET a = b; DROP TABLE t"),
     ("ansi", "INSERT INTO t SELECT sq.x FROM (SELECT 1 AS x) sq; DROP TABLE t; INSERT INTO u SELECT k FROM v"),
